@@ -180,7 +180,9 @@ Plan(sc) ==
         \cup (IF \E k \in fileDst : dstSt[k].k \in {"d", "l"} THEN {"destination is a directory or a symbolic link"} ELSE {})
         \cup (IF \E k \in fileDst : \E n \in 1..(Len(dstReal[k]) - 1) :
                     Lookup(T, JoinComps(SubSeq(dstReal[k], 1, n))).k \in {"f", "h"} THEN {"destination below a file"} ELSE {})
-        \cup (IF \E k \in fileDst : dstSt[k].k \in {"f"} /\ ~InPlace(k) THEN {"destination exists"} ELSE {})
+        \cup (IF \E k \in fileDst : dstSt[k].k = "f" /\ ~InPlace(k) /\
+                    (Lookup(T, JoinComps(dstReal[k])).k = "h" \/ \E i \in DOMAIN T : T[i].k = "h" /\ Comps(T[i].t) = dstReal[k])
+              THEN {"destination exists and has a second name"} ELSE {})
       known ==
            (IF \E k \in fileDst : InPlace(k) /\ ~SpelledSame(k) THEN {"alias"} ELSE {})
         \cup (IF \E k \in fileDst : InPlace(k) /\ tasks[k].mode = "min" /\ Lookup(T, JoinComps(dstReal[k]) \o BakSuffix).k # "none" THEN {"bak"} ELSE {})
